@@ -47,3 +47,9 @@ claim("C11", "One inductive step of the real reader/admission/cancellation pipel
       _NOTE + " String parsing of timestamps is outside the claim.", "4/C11")
 claim("C15", "Real tick/apply_update/runner/crank executed symbolically: uniform clock, exact number of runner steps, step() refusal, and split-vs-whole equality of states and events for a+b<=2 (quick) / <=3 (thorough).",
       _NOTE + " File handlers and I/O are outside the claim.", "4/C15")
+
+claim("C12", "Real Dispatcher.generate_instructions executed symbolically over eligibility attributes (activity, shift, energy vs thresholds, memberships, assignment) and over placements from a finite cell set; "
+      "the emitted pairs are checked per path against an independent eligibility predicate and a brute-force minimum-cost injective matching.", _NOTE + " numpy/scipy/h3 run for real on per-path concrete cost tables: optimality is decided for the stated finite placements and sizes <= 3x3 only.", "4/C12")
+claim("C18", "Real perform_vehicle_state_updates with three modelled vehicles in symbolic roles on one plug type (symbolic enqueue times, plugs, ghosts): FIFO among modelled queue members and exact counters, all paths.", _NOTE, "4/C18")
+claim("C20", "Real time_in_range, the real schedule closure with symbolic shift bounds, real perform_driver_state_updates with symbolic shifts/availability, and the real Dispatcher with symbolic driver kind: "
+      "availability <=> in shift at the step's start time (any epoch second, wrap-around, empty shift), one event per flip, no pairing of off-shift drivers.", _NOTE + " HH:MM:SS parsing is outside the claim.", "4/C20")
